@@ -71,4 +71,19 @@ META = {
                 "datastore operations; code between two points is atomic",
         "technique": "deterministic simulation: seeded cooperative scheduling at injected lock points and simulated-disk operations",
     },
+    "C04": {
+        "text": "Macro simulation: 2-3 real replicas (real WeshOrbitDB, go-orbit-db base store and replicator, go-ipfs-log, real "
+                "metadata store and index, real secret store on SimDisk) of one account group inside a synctest bubble over SimNet/"
+                "SimDag. The simulator owns every head announcement, head exchange, join notification and remote block fetch and "
+                "chooses deliveries (reordering, batching through late announcements, drops repaired by head exchange, duplicates), "
+                "partitions/heals, clean restarts and extra re-index calls between seeded metadata operations, including concurrent "
+                "writes by partitioned devices. Oracles at quiescence: equal entry sets => equal digests of every public getter; "
+                "digest unchanged by reopen and by re-index; for causally ordered histories digest == fold model over the decoded "
+                "entries; entry sets converge at the anti-entropy fixpoint and nothing appended is lost.",
+        "design_ref": "section 5, C04; sections 3.1-3.6",
+        "note": "members/devices/admins of the account group are compared between replicas but not modelled (no activation in this "
+                "scenario); multi-member and contact group histories are exercised by C05/C12; reactions of orbit-db goroutines "
+                "between two simulator events are atomic steps",
+        "technique": "deterministic simulation: real replicas over simulated network/DAG/disk/clock, seeded delivery and fault schedules, convergence + fold-model oracles",
+    },
 }
